@@ -47,7 +47,7 @@ RULE = ("annotation terms from the grammar {int,bool,float,str,bytes,NoneType,An
         "from VERIF_SEED related by bool/int flips under a chosen constructor or 1-3 local edits (widen, narrow, wrap, "
         "unwrap, arity, constructor swap) or unrelated; each pair: is_type_compatible vs the reference relation "
         "(one-sided when the source contains a TypeVar) + algebraic laws on is_type_compatible alone; (iii) 2-3 function "
-        "pipelines from 17 wiring templates (direct, element-wise map, whole/unlisted/colon/partial reduction, tuple outputs, "
+        "pipelines from 19 wiring templates (direct, element-wise map, whole/unlisted/colon/partial reduction, tuple outputs, "
         "renames, fan-out, join) with such annotations, constructed with validate_type_annotations on and off; "
         "non-trivial pair = not identical and neither side Any/NoAnnotation; distinct = distinct (source, target) terms / "
         "distinct (template, annotations)")
@@ -379,6 +379,13 @@ TEMPLATES = {
                 [(0, "y", 1, "y", "elementwise+tupleout"), (0, "y2", 2, "y2", "reduce-whole+tupleout")]),
     "renamed2": ([_f("f", ["x"], ["y"]), _f("g", ["a", "b"], ["z"], None, {"a": "y"})],
                  [(0, "y", 1, "a", "direct+renamed")]),
+    # a chain whose middle function gets an AUTO-GENERATED MapSpec (its output is mapped over by the last function): the
+    # first, plain edge must still be judged in every listing order (the generated edge itself is left open)
+    "autogen3": ([_f("f", ["x"], ["y"]), _f("g", ["y"], ["z"]), _f("h", ["z"], ["w"], "z[i] -> w[i]")],
+                 [(0, "y", 1, "y", "direct"), (1, "z", 2, "z", "autogen-elementwise")]),
+    # one consumer reads two members of a mapped tuple output in different modes (element-wise and as whole array)
+    "tuple2mixed": ([_f("f", ["x"], ["y", "y2"], "x[i] -> y[i], y2[i]"), _f("g", ["y", "y2"], ["z"], "y[i] -> z[i]")],
+                    [(0, "y", 1, "y", "elementwise+tupleout"), (0, "y2", 1, "y2", "reduce-unlisted+tupleout")]),
     # the PRODUCER's outputs are renamed in the pipeline (PipeFunc(renames={own output name: pipeline name}))
     "outren2": ([_f("f", ["x"], ["y"], None, {"y": "ya"}), _f("g", ["ya"], ["z"])], [(0, "y", 1, "ya", "direct+outrenamed")]),
     "tuple3outren": ([_f("f", ["x"], ["y", "y2"], None, {"y": "ya", "y2": "yb"}), _f("g", ["ya"], ["z"]), _f("h", ["yb", "y2"], ["w"])],
@@ -508,6 +515,9 @@ def check_pipeline(v, rng, tname):
         if all(verdicts):
             okc += 1
             v.count(f"edges_{kind}_compatible")
+        elif kind.startswith("autogen"):
+            soft += 1   # pipefunc documents that edges of auto-generated MapSpecs cannot be checked: no expectation
+            v.count(f"edges_{kind}_unspecified")
         elif not any(verdicts) and not M.has_tv(e["source"]) and e["source"] != NOANN and e["target"] != NOANN:
             firm.append(e)
             v.count(f"edges_{kind}_incompatible")
@@ -730,7 +740,7 @@ def finalize(agg, tier, seed):
     for t in TEMPLATE_NAMES:
         need(f"pipelines_{t}", 100 if q else 1500)
     for k in ["direct", "elementwise", "reduce-whole", "reduce-unlisted", "reduce-colon", "reduce-partial", "direct+tupleout",
-              "elementwise+tupleout", "reduce-whole+tupleout", "direct+renamed", "direct+outrenamed", "direct+tupleout+outrenamed"]:
+              "elementwise+tupleout", "reduce-whole+tupleout", "direct+renamed", "direct+outrenamed", "direct+tupleout+outrenamed", "reduce-unlisted+tupleout"]:
         need(f"edges_{k}_compatible", 25 if q else 300)
         need(f"edges_{k}_incompatible", 12 if q else 150)
     if len(agg.keys) < (30000 if q else 150000):
